@@ -21,7 +21,7 @@ BASE_ASSUMPTIONS = [
 
 
 def run_family(ctx, oracle, sig, model_compare=None, genkws=({}, {"max_depth": 4}), n_quick=3000, n_thorough=90000,
-               nontrivial=None, extra=None, rule=""):
+               nontrivial=None, extra=None, rule="", directed=None):
     thorough = ctx["tier"] == "thorough"
     n = n_thorough if thorough else n_quick * ctx.get('scale', 1)
     violations, samples = [], []
@@ -30,6 +30,8 @@ def run_family(ctx, oracle, sig, model_compare=None, genkws=({}, {"max_depth": 4
     checked = modelled = 0
     for part, kw in enumerate(genkws):
         cases = vrun.gen_cases(ctx["seed"] + 101 * part, n // len(genkws), **kw)
+        if directed is not None and part == 0:
+            cases += directed(ctx, n)
         vrun.run_cases(cases, ctx["driver_ok"] and model_compare is not None)
         for c in cases:
             r = c["real"]
